@@ -131,7 +131,9 @@ def one_case(ctx, index, want_model=True):
             blocks1 = block_snapshot(seq)
             h2 = seq.write(f2, create_signature=True)
             d1, d2 = open(f1, 'rb').read(), open(f2, 'rb').read()
-            s2 = pp.Sequence(sysr, use_block_cache=rng.random() < 0.5)
+            used = rng.random() < 0.5
+            s2 = filegen.used_reader(rng, sysr, d) if used else pp.Sequence(sysr, use_block_cache=rng.random() < 0.5)
+            ctx.count('reader.' + ('with_prior_content' if used else 'fresh'))
             s2.read(f1)
             s2.write(f3, create_signature=True)
             d3 = open(f3, 'rb').read()
